@@ -114,7 +114,7 @@ class ThermochemIncomplete(ThermochemBase):
             delete all |eq_ND_Cp_T| data.
         """
         if T is None:
-            self.ND_Cp_data = None
+            self.ND_Cp_data = {}
         else:
             del self.ND_Cp_data[T]
         self._setup_correlation()
